@@ -198,7 +198,31 @@ def link_layer_wiring(c):
     c.cosim_cycles = 8
 
 
+def link_layer_tx_stream_wiring(c):
+    """USB3LinkLayer.elaborate() with every interface signal a free input: "the link layer's stream" handed to the physical layer is
+    the transmit arbiter's output whenever the arbiter is not idle, the arbiter's inputs are - in priority order - the compliance
+    pattern emitter, the training set transceiver, the link command generator (HeaderPacketReceiver.source) and the packet
+    transmitter, and a word any of them is told was taken is the word the physical layer took."""
+    from .c37_header_receive import LinkLayerUnits
+    from .c46_ss_in_endpoint import stream_same, raw_stream_to_phy, RAW_WORD
+    U = LinkLayerUnits(c)
+    of, S, ts, phy, arb = U.of, U.S, U.ts, U.phy, U.arb
+    c.lemma("transmit_arbiter_has_exactly_four_inputs", z3.BoolVal(len(arb._sinks) == 4))
+    c.lemma("phy_sink_is_arbiter_output_unless_idle",
+            z3.Implies(of(arb.idle) == 0, z3.And(stream_same(ts, phy.sink, arb.source, RAW_WORD), S(arb.source.ready, phy.sink.ready),
+                                                 of(phy.can_send_skp) == 0)),
+            clause="packet and command data are never replaced, dropped or delayed out of order: outside idle the word given to the physical "
+                   "layer is the arbiter's (valid, data, ctrl; ready back) and no SKP may replace it")
+    c.lemma("arbiter_is_never_told_ready_while_idle_filler_is_sent", z3.Implies(of(arb.idle) == 1, of(arb.source.ready) == 0),
+            clause="never dropped: no producer is told its word was taken in a cycle in which logical idle was sent instead")
+    if len(arb._sinks) == 4:
+        for index, (name, producer) in enumerate([("compliance_emitter", U.compliance.source), ("training_set_transceiver", U.tsx.source),
+                                                  ("link_command_generator", U.gen.source), ("packet_transmitter", U.raw_tx.source)]):
+            raw_stream_to_phy(c, ts, arb, index, arb._sinks[index], producer, name, phy, "tx")
+
+
 def contracts(tier):
+    yield ("USB3LinkLayer(wiring)", "tx_stream", link_layer_tx_stream_wiring)
     yield ("CTCSkipInserter", "", contract)
     yield ("USB3PhysicalLayer(wiring)", "", physical_layer_wiring)
     yield ("USB3LinkLayer(wiring)", "", link_layer_wiring)
